@@ -3,6 +3,7 @@
    pkg/v2 as it is on the current tree; [loop fixed wide]: fixed = false / wide = false is the code
    of the pinned commit (skip condition `err != nil && ok`, uint32 sums). *)
 From Verif Require Import Base.Util Model.V2 Proofs.V2Proofs Gen.Generated.
+From Verif Require Import Base.GenIR Gen.GeneratedTr Proofs.GenTrV2.
 Open Scope N_scope.
 
 (* The block every key is built at is the upper median of the valid observations' blocks; when at
@@ -186,6 +187,29 @@ Theorem C16_gen_limits :
   V2ReportKeysLimit = 10%Z /\ V2ObservationUpkeepsLimit = 1%Z /\ V2MaxObservationLength = 1000%Z.
 Proof. exact gen_limits. Qed.
 Print Assumptions C16_gen_limits.
+
+Section GenTie.
+Local Open Scope Z_scope.
+(* ---- Tie to the source by translation (Gen/GeneratedTr.v, regenerated from /repo on every run by gen/translate.go) ----
+   g_* are the decision terms translated from the CURRENT Go code: every condition, the branch structure and which
+   white-listed effect statement runs on which path.  The theorems below state that the model's functions - about
+   which every theorem above speaks - are the interpretation of these terms. *)
+(* v2 Report, loop over the checked upkeeps: the model's loop (repaired variant) is the interpretation of the generated body: skipped when not eligible or on an Eligible / Detail error or over the report gas limit (uint64 sums), batch size ends the loop *)
+Theorem C16_gen_Report_loop_decisions :
+  forall c r rs' total acc,
+  let mx := addw true (r_gas r) (v_over c) in
+  loop true true c (r :: rs') total acc =
+  match g_v2_report_body (r_eligerr r) (r_elig r) (r_deterr r) (Z.of_N total) (Z.of_N mx) (Z.of_N (v_limit c))
+                         (Z.of_nat (length (acc ++ [r]))) (v_batch c) with
+  | ([], Cont) => loop true true c rs' total acc
+  | ([1; 2], Brk) => acc ++ [r]
+  | ([1; 2], Fall) => loop true true c rs' (addw true total mx) (acc ++ [r])
+  | _ => acc
+  end.
+Proof. exact gen_v2_report_body. Qed.
+Print Assumptions C16_gen_Report_loop_decisions.
+
+End GenTie.
 
 (* Non-vacuity: 2f+1 = 5 observations, two of them faulty (0 and 2^64-1), one undecodable and one
    non-canonical ("+30") besides; duplicates; one id in flight; an ineligible and an over-limit
